@@ -118,7 +118,7 @@ def gen(rng, idx, tier, seed):
         if idx % 4 == 3:
             fs = {'ioapi': gen_ioapi.gen_spec(rng)}
         else:
-            fs = {'core': gen_core.gen_filespec(rng)}
+            fs = {'core': gen_core.gen_filespec(rng, bounds_prob=0.3)}
         return {'mode': 'program', 'file': fs,
                 'prog_seed': int(rng.integers(1 << 30)),
                 'nops': int(rng.integers(1, 5)),
